@@ -15,7 +15,8 @@ deregister):
   unsub    get_data_consumer_its_aid ; copy ; remove (per match)
   gc n     all ; all ; n × remove(row) ; all ; all            -- collect_trash (time-validity pass; rows are "expired" iff odd)
   attend n copy ; n × (get_data_consumer_its_aid ; search ; last_checked section ; callback) ; removes
-Records are abstract values `Nat`; a record is expired iff its value is odd.  Registry keys, ids, subscription ids
+Records are codes `2·payload + expiredBit` (`Nat`): the payload is what queries return, the bit stands for the record's
+timestamp / time validity; an update replaces the payload and keeps the bit (fix C12-update-keeps-record).  Registry keys, ids, subscription ids
 are `Nat`.  Tie to the source: `blocks_*`/`guarded_ldm` below (`decide` against `Generated.Locks`).
 -/
 import FlexModel.Conc.Sched
@@ -85,14 +86,16 @@ def dbExists (o i : Nat) (s : LSt) : LSt := { s with reg := upd2 s.reg o 1 (if h
 def dbGet (o i slot : Nat) (s : LSt) : LSt :=
   { s with reg := upd2 (upd2 s.reg o slot (if hasKey s.db i then 1 else 0)) o 2 ((lookup s.db i).getD 0) }
 
-/-- `update(data, index)`: `self.database[index] = data` — creates the row when the id is absent -/
-def dbUpdate (i v : Nat) (s : LSt) : LSt :=
-  { s with db := setRow s.db i v, revived := if hasKey s.db i then s.revived else s.revived + 1 }
+/-- `update(updated_container, index)`: `self.database[index] = data` — creates the row when the id is absent.  The
+container is the copy fetched by the preceding `get` (register 2 of `o`) with the new payload `w` -/
+def dbUpdate (o i w : Nat) (s : LSt) : LSt :=
+  { s with db := setRow s.db i (2 * w + s.reg o 2 % 2), revived := if hasKey s.db i then s.revived else s.revived + 1 }
 
 /-- get + update of LDMMaintenance.update_provider_data as one block (LDMMaintenanceThread holds
 `data_containers_lock` across both, and every other maintenance-level writer takes the same lock) -/
-def dbUpdateIfPresent (o i v : Nat) (s : LSt) : LSt :=
-  if hasKey s.db i then { s with db := setRow s.db i v, reg := upd2 s.reg o 3 1 } else { s with reg := upd2 s.reg o 3 0 }
+def dbUpdateIfPresent (o i w : Nat) (s : LSt) : LSt :=
+  if hasKey s.db i then { s with db := setRow s.db i (2 * w + (lookup s.db i).getD 0 % 2), reg := upd2 s.reg o 3 1 }
+  else { s with reg := upd2 s.reg o 3 0 }
 
 def dbRemoveId (o i : Nat) (s : LSt) : LSt :=
   if hasKey s.db i then { s with db := removeId s.db i, removed := s.removed + (s.db.length - (removeId s.db i).length),
@@ -202,7 +205,7 @@ def compileT : Op → List TI
   | .add o a v => tsect lkSvc (.blk (provHas o a)) ++ tsect lkDb (.gblk o 1 1 (dbInsert o v))
   | .upd o i v =>
       tsect lkDb (.blk (dbExists o i)) ++ tsect lkDb (.gblk o 1 1 (dbGet o i 6)) ++ tsect lkDb (.gblk o 6 1 (dbGet o i 7)) ++
-      tsect lkDb (.gblk o 7 1 (dbUpdate i v)) ++ [.loc (setResp o (fun s => [updCode (s.reg o 1) (s.reg o 6) (s.reg o 7)]))]
+      tsect lkDb (.gblk o 7 1 (dbUpdate o i v)) ++ [.loc (setResp o (fun s => [updCode (s.reg o 1) (s.reg o 6) (s.reg o 7)]))]
   | .updMt o i v =>
       tsect lkDb (.blk (dbExists o i)) ++ [.acq lkMt] ++ tsect lkDb (.gblk o 1 1 (dbGet o i 6)) ++ [.rel lkMt, .acq lkMt] ++
       tsect lkDb (.gblk o 6 1 (dbUpdateIfPresent o i v)) ++ [.rel lkMt] ++
